@@ -43,13 +43,17 @@ func c34Stream() (link.HandleMountedStream, string, peer.ID, peer.ID) {
 func VerifC34Solicit() {
 	c := &Controller{le: logrus.NewEntry(logrus.New()), }
 	var pid string
-	switch rt.Choose("kind", 3) {
+	switch rt.Choose("kind", 5) {
 	case 0:
 		pid = string(ControlProtocolID)
 	case 1:
 		pid = SolicitStreamPrefix + rt.String("hash", 0, 2)
 	case 2:
 		pid = rt.String("other", 0, 3)
+	case 3: // the marker appears, but not at the start
+		pid = rt.String("lead", 1, 2) + SolicitStreamPrefix + rt.String("hash", 0, 1)
+	case 4: // the control protocol id followed by something
+		pid = string(ControlProtocolID) + rt.String("tail", 1, 2)
 	}
 	d := link.NewHandleMountedStream(protocol.ID(pid), c34Peer("l"), c34Peer("r"))
 	res, err := c.HandleDirective(context.Background(), c34DI{d: d})
